@@ -473,7 +473,7 @@ func ruleR13(p *Prog) []Ob {
 	}
 	// Find cuts the same suffix and parses base 10, 64 bit
 	{
-		ob := Ob{Rule: "R13", Inst: "parse:segment.Find", Props: props, Pos: "-", Func: "segment.Find"}
+		ob := Ob{Rule: "R13", Inst: "parse:segment.Find", Props: append(append([]string{}, props...), "C20"), Pos: "-", Func: "segment.Find"}
 		if findFn == nil {
 			ob.Status, ob.Msg = Undecided, "segment.Find not found"
 		} else {
